@@ -15,6 +15,7 @@
 #include <atomic>
 #include <cstddef>
 #include <cstdint>
+#include <thread>
 #include <type_traits>
 #include <utility>
 
@@ -168,6 +169,8 @@ namespace pika {
             std::atomic<std::uint64_t> state_;
             stop_callback_base* callbacks_ = nullptr;
             pika::threads::detail::thread_id_type signalling_thread_;
+            // all plain OS threads share the invalid pika thread id
+            std::thread::id signalling_os_thread_;
         };
 
     }    // namespace detail
